@@ -42,6 +42,12 @@ T = {
     "C11": ("post-condition monitors on TotalDos/ProjectedDos/TetrahedronMesh/TetrahedronMethod: sum rules, additivity, monotonicity, dJ/dw=I, compiled vs Python on consistent frequency fields; branch table measured by the harness",
             "Held on the executions produced: zoo meshes (incl. 1-thick and shifted) with symmetry on/off, normal and Cauchy smearing, atom/xyz/direction projections; synthetic fields (smooth, rough, exact ties, constant) on grids with each of the 4 main diagonals shortest; all 4x5 (central vertex position x interval) cells reached.",
             "frequencies generic (never exactly a vertex value) where C and Py are compared; smearing quadrature tolerance 2e-3", "3/C11"),
+    "C12": ("reference-model monitor: central differences (two step sizes, error must shrink) of phonopy's own D(q) and mode frequencies vs DerivativeOfDynamicalMatrix (C and Py) and reported group velocities (analytic and delta_q); closed-form Grueneisen parameter for uniformly scaling constants; reduced vs full Grueneisen mesh",
+            "Held on the executions produced: 14 zoo crystals x supercells x symmetric model and arbitrary (not permutation-symmetric) periodic constants x none/Wang NAC x full/compact x C/Py; generic and high-symmetry q.",
+            "group velocities compared only where phonopy's little-group symmetrisation is legitimate (symmetric constants on isotropic supercells, else is_symmetry=False); Grueneisen modes inside phonopy's degeneracy tolerance band are don't-care", "3/C12"),
+    "C13": ("sanitizers and kernel-boundary tap: ASan+UBSan build in the real interpreter; TSan build on a pthread mini-OpenMP runtime (thread counts, permuted thread ids, yields); guard-page re-homing of every array argument in the production build; differential re-execution of every captured call with 1..16 threads and on the serial build; the other checks' reference oracles under the serial build; argument well-formedness against the C element types parsed from c/_phonopy.cpp",
+            "Held on the executions produced: all exported kernels reached through the public classes with >=3 distinct shape tuples each, 0 sanitizer reports, bitwise thread-count independence, serial/OpenMP agreement, reference oracles silent. Evidence lists kernel call counts, shapes, regions that really ran multi-threaded.",
+            "shim instead of nanobind for the glue; numpy/CPython uninstrumented; red zones + guard pages do not see intra-array overflows; TSan sees only schedules that happened", "3/C13"),
 }
 
 NA_REASON = "check not built yet in this round (runtime-monitoring driver pending); no claim is made"
